@@ -903,6 +903,16 @@ def _scan_options(tokens: list[str]) -> tuple[set[str], int, str | None, str | N
     return seen, i, None, None
 
 
+def _writes_files_xoption(tokens: list[str], end: int) -> bool:
+    """True if python's own options (before index `end`) hold -X pycache_prefix / -X perf."""
+    for i, token in enumerate(tokens[1:end], start=1):
+        if token.startswith("-") and not token.startswith("--") and "X" in token:
+            value = token.split("X", 1)[1] or (tokens[i + 1] if i + 1 < len(tokens) else "")
+            if value.startswith(("pycache_prefix", "perf")):
+                return True
+    return False
+
+
 def get_description(tokens: list[str]) -> str:
     """Get description for Python command."""
     if len(tokens) < 2:
@@ -957,6 +967,10 @@ def classify(ctx: HandlerContext) -> Classification:
     # Help / version: CPython prints and exits, whatever else is on the line
     if seen & _INFO_OPTIONS:
         return Classification("allow", description=desc)
+
+    # -X pycache_prefix=DIR / -X perf make the interpreter itself write files
+    if "-X" in seen and _writes_files_xoption(tokens, idx):
+        return Classification("ask", description=desc)
 
     # -c (inline code) - too hard to analyze reliably
     if mode == "-c":
